@@ -54,6 +54,7 @@ type replayFile struct {
 	Trace     []TraceOut `json:"trace"`
 	Rendered  []string   `json:"inputs_rendered"`
 	ForceFalse bool      `json:"force_false,omitempty"`
+	Hooked     bool      `json:"hooked,omitempty"`
 }
 
 func renderTrace(tr []TraceOut) []string {
@@ -83,7 +84,7 @@ func engineOnlyKind(k string) bool {
 
 func writeReplayFile(id, tier string, hs HarnessSpec, v *Violation, forceFalse bool) (string, error) {
 	rf := replayFile{Property: id, Pkg: hs.Pkg, Entry: hs.Entry, Tier: tier, Kind: v.Kind, Msg: v.Msg,
-		Decisions: v.Decisions, Trace: v.Trace, Rendered: renderTrace(v.Trace), ForceFalse: forceFalse}
+		Decisions: v.Decisions, Trace: v.Trace, Rendered: renderTrace(v.Trace), ForceFalse: forceFalse, Hooked: v.Hooked}
 	raw, _ := json.MarshalIndent(rf, "", " ")
 	h := sha1.Sum(raw)
 	dir := filepath.Join(verifDir, "replays", id)
@@ -204,7 +205,7 @@ func cmdReplay(args []string) int {
 	fmt.Printf("replaying %s %s/%s: %s: %s\ninputs: %v\n", rf.Property, rf.Pkg, rf.Entry, rf.Kind, rf.Msg, rf.Rendered)
 	var ok bool
 	var out string
-	if engineOnlyKind(rf.Kind) {
+	if engineOnlyKind(rf.Kind) || rf.Hooked {
 		ok, out, err = symbolicReplay(&rf)
 	} else {
 		ok, out, err = nativeReplay(args[1])
@@ -389,6 +390,9 @@ func cmdCheck(args []string) int {
 			var rerr error
 			if engineOnlyKind(v.Kind) {
 				rep, out, rerr = true, "engine-level finding (no native observable); replay re-executes the decision prefix symbolically", nil
+				v.Confirmed = "engine"
+			} else if v.Hooked {
+				rep, out, rerr = true, "the schedule interferes right after an Unlock/RUnlock, a point that only the engine's mutex model can force; replay re-executes the decision prefix symbolically", nil
 				v.Confirmed = "engine"
 			} else {
 				rep, out, rerr = nativeReplay(path)
